@@ -246,11 +246,11 @@ def live_closure(cfg, seeds):
 
 # ---------------------------------------------------------------- the check
 
-def job_config(run, cfg_name, n_workers, cap):
+def job_config(run, cfg_name, n_workers, cap, which=None):
     cfg = {c.name: c for c in (S1, S2, S2W, S3)}[cfg_name]
     R, facts = mpmodel.learn_dispatcher_cached() if hasattr(mpmodel, "learn_dispatcher_cached") else learn(Run_silent(run))
     table = walk_worker_table()
-    check_config(run, cfg, n_workers, R, table, cap, run.tier)
+    check_config(run, cfg, n_workers, R, table, cap, run.tier, which)
 
 
 class Run_silent:
@@ -263,7 +263,8 @@ class Run_silent:
         pass
 
 
-def check_config(run, cfg, n_workers, R, table, max_live_seeds, tier):
+def check_config(run, cfg, n_workers, R, table, max_live_seeds, tier, which=None):
+    """which: None = all queries and the twin; otherwise the one query name (or 'twin') this job discharges."""
     name = "%s[W=%d%s]" % (cfg.name, n_workers, ",<=%d live seeds" % max_live_seeds if max_live_seeds else "")
     shutdown, done_max, nstart, seeds, loop_polls, apex_breaks = shutdown_script(cfg, n_workers)
     if nstart != n_workers:
@@ -279,9 +280,11 @@ def check_config(run, cfg, n_workers, R, table, max_live_seeds, tier):
         ("child-before-parent", U.exists(lambda s: s["err"] == 1), "a parent's callback starts before a live child's callback has ended, or a tile is released twice"),
         ("exactly-once", U.exists(lambda s: z3.Or(*[z3.Or(z3.UGT(s["cb%d" % i], 1), z3.And(z3.Not(ts.live[i]), s["cb%d" % i] != 0)) for i in range(ts.N)])),
          "a tile's callback runs twice, or runs for a tile with no live leaf below it"),
-        ("no-deadlock", U.exists(lambda s: z3.And(z3.Not(U.enabled(s, progress_only=True)), z3.Not(mpmodel.walk_good_final(ts, s)))), "the walk gets stuck (no process can make progress) before completing"),
+        ("no-deadlock", (lambda s: z3.And(z3.Not(U.enabled(s, progress_only=True)), z3.Not(mpmodel.walk_good_final(ts, s))))(U.final()), "the walk gets stuck (no process can make progress) before completing"),
     ]
     for qn, bad, what in queries:
+        if which is not None and qn != which:
+            continue
         r, m, dt = U.check(bad)
         nm = "%s.%s" % (name, qn)
         if r == "unsat":
@@ -309,6 +312,8 @@ def check_config(run, cfg, n_workers, R, table, max_live_seeds, tier):
                 run.error(nm, "solver schedule did not reproduce on the real code: live=%s events=%s returned=%s drive=%s" % (live_seeds, obs["events"], obs.get("returned"), obs["drive"][:3]))
         else:
             run.ob(nm, "inconclusive", "E3:bmc", "solver answered %s after %.0fs" % (r, dt), queries=1, solver_s=dt)
+    if which is not None and which != "twin":
+        return
     r, m, dt = U.check(mpmodel.walk_good_final(ts, U.final()), *[v for v in ts.live_seed.values()][:2])
     nm = "%s.twin" % name
     if r == "sat":
@@ -361,7 +366,8 @@ def check(run):
         if run.tier == "thorough":
             plans = [(S1, 2, None), (S2, 2, None), (S3, 2, None), (S1, 3, 2), (S2, 3, None), (S2W, 2, None)]
         from vlib.core import run_parallel
-        jobs = [(cfg.name, w, cap) for cfg, w, cap in plans if not only or any(o == cfg.name.split("-")[0] or "parallel" in o for o in only)]
+        jobs = [(cfg.name, w, cap, q) for cfg, w, cap in plans if not only or any(o == cfg.name.split("-")[0] or "parallel" in o for o in only)
+                for q in ("child-before-parent", "exactly-once", "no-deadlock", "twin")]
         run_parallel(run, __name__, "job_config", jobs)
     except HarnessError as e:
         run.error("parallel-walk", e)
